@@ -227,10 +227,7 @@ def judge_oncurve(ctx, case):
                 p = seg(t)
                 p2 = (float(p[0]), float(p[1]))
                 ok2 = p2 in seg
-                # exact rational projection on a curved rational segment
-                # takes 5-20 s per query in the library (exact Newton
-                # steps); only straight segments get the rational point
-                ok = (p in seg) if deg == 1 else ok2
+                ok = p in seg
         except BaseException as exc:
             ctx.violation("oncurve", "raised", sub, repr(exc), innermost_shapepy_frame(exc))
             continue
